@@ -606,4 +606,10 @@ def rule_repack(ctx) -> RuleResult:
     return res
 
 
-RULES = [rule_gate, rule_guard, rule_who, rule_open, rule_reader, rule_repack]
+def rule_load(ctx) -> RuleResult:
+    from .c19 import rule_load as _load
+
+    return _load(ctx, "C10.LOAD", "C10")
+
+
+RULES = [rule_gate, rule_guard, rule_who, rule_open, rule_reader, rule_repack, rule_load]
